@@ -330,5 +330,19 @@ func DiffVisit(st storage.Store, mo *model.Store, checkDate bool) string {
 	for _, n := range extra {
 		diffs = append(diffs, fmt.Sprintf("visit shows messages in %q which the model holds empty", n))
 	}
+	// the visit contract: once the visitor has returned false it is not called again
+	if len(diffs) == 0 && len(mo.Names()) >= 2 {
+		calls := 0
+		_ = st.VisitMailboxes(func(ms []storage.Message) bool {
+			if len(ms) == 0 {
+				return true
+			}
+			calls++
+			return false
+		})
+		if calls != 1 {
+			diffs = append(diffs, fmt.Sprintf("a visitor that returned false on its first non-empty mailbox was called for %d mailboxes (the visit must stop)", calls))
+		}
+	}
 	return strings.Join(diffs, "; ")
 }
